@@ -106,6 +106,7 @@ type c02Conn struct {
 	wire     []byte
 	selected bool
 	dead     bool
+	timeout  time.Duration // 0 = c02Timeout
 }
 
 func c02Dial(ts *testServer, cfg c02Cfg) *c02Conn {
@@ -182,6 +183,18 @@ func c02Outcome(err error) string {
 
 var c02Timeout = 20 * time.Second
 
+// a command that did not return within c02Timeout is run again, alone on a fresh connection, with
+// this much time: "timeout" is a verdict (the command was not delivered) only if it repeats there —
+// a loaded machine must not turn a slow run into a violation
+var c02RetryTimeout = 90 * time.Second
+
+func (cn *c02Conn) waitFor() time.Duration {
+	if cn.timeout != 0 {
+		return cn.timeout
+	}
+	return c02Timeout
+}
+
 type c02Cmd struct {
 	kind   string
 	text   string // caller-side rendering
@@ -216,7 +229,7 @@ func (cn *c02Conn) exec(cmd c02Cmd) caseLine {
 		if err != nil && strings.HasPrefix(err.Error(), "c02panic") {
 			out = "panic"
 		}
-	case <-time.After(c02Timeout):
+	case <-time.After(cn.waitFor()):
 		out = "timeout"
 		if os.Getenv("C02_DEBUG") != "" {
 			t := cmd.text
@@ -292,7 +305,17 @@ func c02Chunk(cfg c02Cfg, login c02Cmd, cmds []c02Cmd) []caseLine {
 			cn = c02Dial(ts, cfg)
 			cn.plainLogin()
 		}
-		out = append(out, cn.exec(cmd))
+		l := cn.exec(cmd)
+		if len(l.fields) > 2 && l.fields[2] == "timeout" {
+			cn.cl.Close()
+			cn = c02Dial(ts, cfg)
+			cn.plainLogin()
+			cn.timeout = c02RetryTimeout
+			l = cn.exec(cmd)
+			l.counts = append(l.counts, "rerun-alone-after-timeout")
+			cn.timeout = 0
+		}
+		out = append(out, l)
 	}
 	cn.cl.Close()
 	return out
@@ -429,6 +452,14 @@ func c02NumSet(r *c02G, uid bool) imap.NumSet {
 				rs = []imap.SeqRange{{a, b}}
 			}
 		}
+	}
+	if len(rs) == 0 && r.chance(2, 3) {
+		// an empty set is not only nil: a scratch set that was reset (s[:0]) or preallocated
+		// (make(…, 0, n)) is just as empty and must be refused just the same
+		if uid {
+			return make(imap.UIDSet, 0, 4)
+		}
+		return make(imap.SeqSet, 0, 4)
 	}
 	if uid {
 		var u imap.UIDSet
@@ -1107,11 +1138,14 @@ func c02ParseNumSet(t string) (imap.NumSet, bool) {
 		}
 	}
 	if uid {
-		var u imap.UIDSet
+		u := make(imap.UIDSet, 0, 4) // an empty set replays as the preallocated kind (see c02NumSet)
 		for _, x := range rs {
 			u = append(u, imap.UIDRange{Start: imap.UID(x.Start), Stop: imap.UID(x.Stop)})
 		}
 		return u, true
+	}
+	if len(rs) == 0 {
+		return make(imap.SeqSet, 0, 4), false
 	}
 	return imap.SeqSet(rs), false
 }
@@ -1500,6 +1534,7 @@ func replayC02(e *emitter, kind string, f []string) {
 		}
 		cmd.sel = false
 	}
+	cn.timeout = c02RetryTimeout
 	l := cn.exec(cmd)
 	e.emit(l.kind, l.fields...)
 }
